@@ -33,13 +33,31 @@ def ESC : Char := Char.ofNat 27
 
 /-! ## colour arguments -/
 
+/-- a Python number: an `int`, or a `float` with the value `num / den` (`den > 0`; `7.0` is
+`flt 7 1`: it compares and hashes equal to `int 7` but is not an `int`) -/
+inductive Num where
+  | int (n : Int)
+  | flt (num : Int) (den : Nat)
+  deriving Repr, DecidableEq
+
+/-- `c < 0` -/
+def Num.neg : Num → Bool
+  | .int n => n < 0
+  | .flt num _ => num < 0
+
+/-- `c > 5` -/
+def Num.gt5 : Num → Bool
+  | .int n => n > 5
+  | .flt num den => num > 5 * (den : Int)
+
 /-- a value passed as `color` / `bg_color` -/
 inductive ColorSpec where
   | none                      -- `None`
   | str (s : List Char)       -- any `str`
   | int (n : Int)             -- any `int` (not `bool`)
-  | tuple (xs : List Int)     -- a tuple of ints, any length
-  | other                     -- a hashable object of another type (`float`, `bytes`, …)
+  | float (num : Int) (den : Nat)   -- any finite `float`
+  | tuple (xs : List Num)     -- a tuple of numbers, any length
+  | other                     -- a hashable object of another type (`bytes`, …)
   deriving Repr, DecidableEq
 
 inductive Effect where
@@ -124,10 +142,14 @@ def seqElement (cfg : SgrCfg) (isBg : Bool) (c : ColorSpec) : Except Err (List C
   | .tuple xs =>
     match xs with
     | [r, g, b] =>
-      if r < 0 ∨ r > 5 ∨ g < 0 ∨ g > 5 ∨ b < 0 ∨ b > 5 then .error .valueError
-      else intElem cfg id (16 + r * 36 + g * 6 + b)
+      if r.neg ∨ r.gt5 ∨ g.neg ∨ g.gt5 ∨ b.neg ∨ b.gt5 then .error .valueError
+      else
+        match r, g, b with
+        | .int r, .int g, .int b => intElem cfg id (16 + r * 36 + g * 6 + b)
+        | _, _, _ => .error .valueError      -- the sum is a `float`: falls through to the last `raise`
     | _ => .error .valueError
   | .int n => intElem cfg id n
+  | .float _ _ => .error .valueError
   | .none => .error .valueError
   | .other => .error .valueError
 
@@ -379,6 +401,57 @@ def run : PState → Attr → List Char → Option (List (Char × Attr) × Attr)
 /-- a terminal in default state receives `s` -/
 def interp (s : List Char) : Option (List (Char × Attr) × Attr) := run .ground Attr.default s
 
+/-! ## several calls in one process -/
+
+/-- one request to the package: construct a formatter and apply it (`ColorFmt(...)(text)`,
+`ColorBytes(...)(bytes)`), or apply an earlier formatter object again -/
+inductive Call where
+  | fmt (s : Spec) (t : List Char)
+  | bytes (s : Spec) (b : List UInt8)
+  | again (k : Nat) (t : List Char)        -- the object made by call number `k` (0-based)
+  | plain (t : List Char)                  -- `ColorFmt.get_plaintext_fmt()(text)` (a cached `ColorFmt(None)`)
+  deriving Repr
+
+inductive CallResult where
+  | str (s : List Char)
+  | bytes (b : List UInt8)
+  | err (e : Err)
+  | noObject                               -- `again k`: call `k` made no `ColorFmt` object
+  deriving Repr, DecidableEq
+
+/-- the arguments of `ColorFmt(None)` -/
+def plainSpec : Spec := ⟨.none, .none, none, none, none, none, none, false⟩
+
+/-- a `ColorFmt` object is its prefix/suffix pair -/
+abbrev FmtObj := List Char × List Char
+
+def callFmt (cfg : SgrCfg) (s : Spec) (t : List Char) : CallResult × Option FmtObj :=
+  match mkSeq cfg s with
+  | .ok (p, q) => (.str (p ++ t ++ q), some (p, q))
+  | .error e => (.err e, none)
+
+def callBytes (cfg : SgrCfg) (s : Spec) (b : List UInt8) : CallResult :=
+  match mkSeqBytes cfg s with
+  | .ok (p, q) => .bytes (p ++ b ++ q)
+  | .error e => .err e
+
+def callAgain (objs : List (Option FmtObj)) (k : Nat) (t : List Char) : CallResult :=
+  match objs[k]? with
+  | some (some (p, q)) => .str (p ++ t ++ q)
+  | _ => .noObject
+
+/-- the calls of one process in order; `objs` = the objects made so far (one entry per call).
+Nothing else is carried from one call to the next: the package keeps no state between calls. -/
+def runCalls (cfg : SgrCfg) (objs : List (Option FmtObj)) : List Call → List CallResult
+  | [] => []
+  | .fmt s t :: rest =>
+    let (r, o) := callFmt cfg s t
+    r :: runCalls cfg (objs ++ [o]) rest
+  | .bytes s b :: rest => callBytes cfg s b :: runCalls cfg (objs ++ [none]) rest
+  | .again k t :: rest => callAgain objs k t :: runCalls cfg (objs ++ [none]) rest
+  | .plain t :: rest => (callFmt cfg plainSpec t).1 :: runCalls cfg (objs ++ [none]) rest
+
+
 /-! ## what was requested (specification) -/
 
 /-- position = number of the standard colour (ECMA-48: 30+k foreground, 40+k background) -/
@@ -390,7 +463,13 @@ def nameIndex : List (List Char) → List Char → Option Nat
   | [], _ => none
   | n :: rest, s => if n = s then some 0 else (nameIndex rest s).map (· + 1)
 
-/-- the documented colour grammar: `None`, the eight names, `0..255`, `(r,g,b)` with components in
+/-- the components when all of them are `int`s -/
+def intsOf : List Num → Option (List Int)
+  | [] => some []
+  | .int n :: rest => (intsOf rest).map (n :: ·)
+  | .flt _ _ :: _ => none
+
+/-- the documented colour grammar: `None`, the eight names, `0..255`, `(r,g,b)` with `int` components in
 `0..5` ↦ `16+36r+6g+b`, `g<N>` with `N ≤ 23` ↦ `232+N`; `none` = not a colour -/
 def wantedColour : ColorSpec → Option Colour
   | .none => some .dflt
@@ -405,10 +484,13 @@ def wantedColour : ColorSpec → Option Colour
         | none => none
       | _ => none
   | .int n => if 0 ≤ n ∧ n ≤ 255 then some (.idx n.toNat) else none
-  | .tuple [r, g, b] =>
-    if 0 ≤ r ∧ r ≤ 5 ∧ 0 ≤ g ∧ g ≤ 5 ∧ 0 ≤ b ∧ b ≤ 5 then some (.idx (16 + 36 * r + 6 * g + b).toNat)
-    else none
-  | .tuple _ => none
+  | .tuple xs =>
+    match intsOf xs with
+    | some [r, g, b] =>
+      if 0 ≤ r ∧ r ≤ 5 ∧ 0 ≤ g ∧ g ≤ 5 ∧ 0 ≤ b ∧ b ≤ 5 then some (.idx (16 + 36 * r + 6 * g + b).toNat)
+      else none
+    | _ => none
+  | .float _ _ => none
   | .other => none
 
 /-- attributes requested from a formatter; `none` = one of the colour values is invalid -/
